@@ -10,7 +10,6 @@ INVARIANTS
   TypeOK
   C29_ReturnedHandleIsBacked
   C29_LeftAtZero
-  X_HandleUsesCurrentSession
   X_CounterCountsHandles
 PROPERTIES
   C29_LeftOnlyAtZero
